@@ -12,11 +12,13 @@
 (*   t   tag class: "" (None) | "!" | "local" (!foo) | "core" (!!str) |    *)
 (*       "uri" (non-ASCII, verbatim) | "hdl" (tag:h1:x, prefix of the      *)
 (*       handle !h1!) | "hu" (prefix of the handle !u! whose prefix is     *)
-(*       non-ASCII) | "empty" ('')                                         *)
+(*       non-ASCII) | "st" / "bt" (prefix of a redefined `!!` / `!`) |      *)
+(*       "empty" ('')                                                      *)
 (*   i   implicit: <<plain, quoted>> for scalars, <<flag>> for collections *)
 (*   v   scalar class (ScalarText gives its text), s style request,        *)
 (*   fs  flow_style, x explicit, ver in {"", "1.1", "1.2", "2.0"},          *)
-(*   tg  %TAG class: "" | "h1" | "hu" (non-ASCII prefix) | "badh" | "nop"   *)
+(*   tg  %TAG class: "" | "h1" | "hu" (non-ASCII prefix) | "hs" (`!!`        *)
+(*       redefined) | "hb" (`!` redefined) | "badh" | "nop"                 *)
 (* The text is produced by the writer operators of Scalars.tla (scalars    *)
 (* are written character by character in the exact writer state), next to  *)
 (* it the item list that the reader model (EmitRead.tla) consumes.         *)
@@ -58,21 +60,42 @@ ScalarText(c) ==
     [] c = "dashfold" -> <<97, 97, 97, 97, 97, 97, 32, 45, 45, 45>>                  \* `aaaaaa ---`
     [] c = "x" -> <<120>>
 AnchorText(a) == IF a = "a1" THEN <<97, 49>> ELSE IF a = "a2" THEN <<97, 50>> ELSE <<>>
-\* the tag as the application sees it (any injective encoding serves H)
+\* the tag as the application sees it: prefix \o suffix (any injective encoding serves H; these are the concrete texts)
+LocalP == <<33>>                                          \* !
+CoreP == <<116, 97, 103, 58, 121, 97, 109, 108, 46, 111, 114, 103, 44, 50, 48, 48, 50, 58>>                     \* tag:yaml.org,2002:
+H1P == <<116, 58, 104, 49, 58>>                           \* t:h1:
+UP == <<116, 58, 233, 58>>                                \* t:e-acute:
+SecP == <<116, 58, 115, 58>>                              \* t:s:   (prefix of a redefined `!!`)
+BangP == <<116, 58, 98, 58>>                              \* t:b:   (prefix of a redefined `!`)
 TagValue(t) ==
-  CASE t = "" -> <<>> [] t = "!" -> <<33>> [] t = "local" -> <<33, 102>> [] t = "core" -> <<116, 58, 115>>
-    [] t = "uri" -> <<116, 58, 233>> [] t = "hdl" -> <<116, 58, 104, 49, 58, 120>> [] t = "hu" -> <<116, 58, 233, 58, 120>>
+  CASE t = "" -> <<>> [] t = "!" -> <<33>> [] t = "local" -> LocalP \o <<102>> [] t = "core" -> CoreP \o <<115>>
+    [] t = "uri" -> <<116, 58, 233>> [] t = "hdl" -> H1P \o <<120>> [] t = "hu" -> UP \o <<120>>
+    [] t = "st" -> SecP \o <<120>> [] t = "bt" -> BangP \o <<120>>
     [] OTHER -> <<63>>
-\* prepare_tag: the text written for a tag; tp = handles declared by the current document
+\* what a reader makes of a tag token: hd = handle text ("none" for `!` alone and verbatim tags), sfx = suffix,
+\* handles = the %TAG handles the document declares; <<0>> = undefined handle
+ResolveTag(hd, sfx, tag, handles) ==
+  CASE hd = "none" -> TagValue(tag)
+    [] hd = "!"  -> (IF "hb" \in handles THEN BangP ELSE LocalP) \o sfx
+    [] hd = "!!" -> (IF "hs" \in handles THEN SecP ELSE CoreP) \o sfx
+    [] hd = "h1" -> IF "h1" \in handles THEN H1P \o sfx ELSE <<0>>
+    [] hd = "hu" -> IF "hu" \in handles THEN UP \o sfx ELSE <<0>>
+\* prepare_tag: the text written for a tag; tp = handles declared by the current document.  tag_prefixes keeps the default
+\* prefixes `!` and `tag:yaml.org,2002:` even when the document redefines `!` / `!!` (defect site; repair "D11e": a
+\* redefined handle no longer stands for its default prefix, the tag is then written verbatim)
+Verb(body) == [chars |-> <<33, 60>> \o body \o <<62>>, hd |-> "none", sfx |-> <<>>]
+Short(hdchars, hd, sfx) == [chars |-> hdchars \o sfx, hd |-> hd, sfx |-> sfx]
 TagWritten(t, tp) ==
-  CASE t = "!" -> [chars |-> <<33>>, h |-> "none"]
-    [] t = "local" -> [chars |-> <<33, 102>>, h |-> "!"]                                   \* !f
-    [] t = "core" -> [chars |-> <<33, 33, 115>>, h |-> "!!"]                               \* !!s
-    [] t = "uri" -> [chars |-> <<33, 60, 116, 58, 37, 67, 51, 37, 65, 57, 62>>, h |-> "none"]   \* !<t:%C3%A9>
-    [] t = "hdl" -> IF "h1" \in tp THEN [chars |-> <<33, 104, 49, 33, 120>>, h |-> "h1"]   \* !h1!x
-                    ELSE [chars |-> <<33, 60, 116, 58, 104, 49, 58, 120, 62>>, h |-> "none"]
-    [] t = "hu" -> IF "hu" \in tp THEN [chars |-> <<33, 117, 33, 120>>, h |-> "hu"]        \* !u!x
-                   ELSE [chars |-> <<33, 60, 116, 58, 37, 67, 51, 37, 65, 57, 58, 120, 62>>, h |-> "none"]
+  CASE t = "!" -> [chars |-> <<33>>, hd |-> "none", sfx |-> <<>>]
+    [] t = "local" -> IF "hb" \in tp /\ "D11e" \in Fix THEN Verb(<<33, 102>>) ELSE Short(<<33>>, "!", <<102>>)            \* !f
+    [] t = "core" -> IF "hs" \in tp /\ "D11e" \in Fix THEN Verb(CoreP \o <<115>>) ELSE Short(<<33, 33>>, "!!", <<115>>)   \* !!s
+    [] t = "uri" -> Verb(<<116, 58, 37, 67, 51, 37, 65, 57>>)                                                            \* !<t:%C3%A9>
+    [] t = "hdl" -> IF "h1" \in tp THEN Short(<<33, 104, 49, 33>>, "h1", <<120>>) ELSE Verb(H1P \o <<120>>)              \* !h1!x
+    [] t = "hu" -> IF "hu" \in tp THEN Short(<<33, 117, 33>>, "hu", <<120>>)                                             \* !u!x
+                   ELSE Verb(<<116, 58, 37, 67, 51, 37, 65, 57, 58, 120>>)
+    [] t = "st" -> IF "hs" \in tp THEN Short(<<33, 33>>, "!!", <<120>>) ELSE Verb(SecP \o <<120>>)                       \* !!x
+    [] t = "bt" -> IF "hb" \in tp THEN Short(<<33>>, "!", <<120>>) ELSE Verb(BangP \o <<120>>)                           \* !x
+ShadowedDefault(t, tp) == "D11e" \notin Fix /\ ((t = "core" /\ "hs" \in tp) \/ (t = "local" /\ "hb" \in tp))
 
 (***************************************************************************)
 (* the machine record                                                      *)
@@ -82,7 +105,7 @@ TagWritten(t, tp) ==
 (***************************************************************************)
 M0(opt) == [st |-> "stream_start", states |-> <<>>, events |-> <<>>, indents |-> <<>>, indent |-> NoneI, flow |-> 0,
             root |-> FALSE, seqc |-> FALSE, mapc |-> FALSE, sk |-> FALSE, w |-> S!W0(0, TRUE, TRUE), items |-> <<>>,
-            tp |-> {}, style |-> "-", outcome |-> "run", why |-> "-", trail |-> {}, diag |-> {}, opt |-> opt, ndocs |-> 0, lysite |-> FALSE,
+            tp |-> {}, style |-> "-", ptag |-> "", panchor |-> "", outcome |-> "run", why |-> "-", trail |-> {}, diag |-> {}, opt |-> opt, ndocs |-> 0, lysite |-> FALSE,
             snaps |-> <<>>]
 
 Fail(m, why) == [m EXCEPT !.outcome = "EmitterError", !.why = why]
@@ -161,7 +184,8 @@ CheckSimpleKey(m, ev) ==
       slen == IF ev.k = "Scalar" THEN Len(ScalarText(ev.v)) ELSE 0
   IN  IF aerr # "-" THEN [m |-> Fail(m, aerr), r |-> FALSE]
       ELSE IF terr # "-" THEN [m |-> Fail(m, terr), r |-> FALSE]
-      ELSE [m |-> m,
+      ELSE [m |-> [m EXCEPT !.panchor = IF node /\ ev.a # "" THEN ev.a ELSE @,                      \* self.prepared_anchor / self.prepared_tag
+                            !.ptag = IF ev.k \in {"Scalar", "SequenceStart", "MappingStart"} /\ ev.t # "" THEN ev.t ELSE @],
             r |-> alen + tlen + slen < 128
                   /\ (ev.k = "Alias"
                       \/ (ev.k = "Scalar" /\ ~Analysis(m, ev).empty /\ ~Analysis(m, ev).multiline)
@@ -170,24 +194,30 @@ CheckSimpleKey(m, ev) ==
 (***************************************************************************)
 (* anchor, tag, scalar processors                                          *)
 (***************************************************************************)
+\* prepared_anchor / prepared_tag cache what check_simple_key prepared for THIS event; every path resets them
 ProcessAnchor(m, ev, indicator) ==
-  IF ev.a = "" THEN m
-  ELSE IF PrepAnchorErr(ev.a) # "-" THEN Fail(m, PrepAnchorErr(ev.a))
-  ELSE WriteInd(m, <<indicator>> \o AnchorText(ev.a), TRUE, FALSE, FALSE,
-                [t |-> IF indicator = 42 THEN "alias" ELSE "anchor", a |-> ev.a])
+  IF ev.a = "" THEN [m EXCEPT !.panchor = ""]
+  ELSE LET a == IF m.panchor # "" THEN m.panchor ELSE ev.a
+       IN  IF PrepAnchorErr(a) # "-" THEN Fail(m, PrepAnchorErr(a))
+           ELSE [WriteInd(m, <<indicator>> \o AnchorText(a), TRUE, FALSE, FALSE,
+                          [t |-> IF indicator = 42 THEN "alias" ELSE "anchor", a |-> a]) EXCEPT !.panchor = ""]
 
-WriteTag(m, t) ==
-  IF t = "" THEN Fail(m, "tag is not specified")
-  ELSE IF PrepTagErr(t) # "-" THEN Fail(m, PrepTagErr(t))
-  ELSE LET tw == TagWritten(t, m.tp) IN WriteInd(m, tw.chars, TRUE, FALSE, FALSE, [t |-> "tag", tag |-> t, h |-> tw.h])
+WriteTag(m, t0) ==
+  IF t0 = "" THEN Fail(m, "tag is not specified")
+  ELSE LET t == IF m.ptag # "" THEN m.ptag ELSE t0                     \* if self.prepared_tag is None: prepare_tag(tag)
+       IN  IF PrepTagErr(t) # "-" THEN Fail(m, PrepTagErr(t))
+           ELSE LET tw == TagWritten(t, m.tp)
+                    m1 == WriteInd(m, tw.chars, TRUE, FALSE, FALSE, [t |-> "tag", tag |-> t, hd |-> tw.hd, sfx |-> tw.sfx])
+                IN  [m1 EXCEPT !.ptag = "", !.diag = IF ShadowedDefault(t, m.tp) THEN @ \cup {"default-handle-shadowed"} ELSE @]
 
 ProcessTag(m, ev) ==
   IF ev.k = "Scalar"
   THEN LET style == S!ChooseStyle(Analysis(m, ev), ev.s, ev.i[1], m.flow > 0, m.sk, m.opt.canonical)
            m1 == [m EXCEPT !.style = style]
-       IN  IF (~m.opt.canonical \/ ev.t = "") /\ ((style = "plain" /\ ev.i[1]) \/ (style # "plain" /\ ev.i[2])) THEN m1
-           ELSE WriteTag(m1, IF ev.i[1] /\ ev.t = "" THEN "!" ELSE ev.t)
-  ELSE IF (~m.opt.canonical \/ ev.t = "") /\ ev.i[1] THEN m
+       IN  IF (~m.opt.canonical \/ ev.t = "") /\ ((style = "plain" /\ ev.i[1]) \/ (style # "plain" /\ ev.i[2]))
+           THEN [m1 EXCEPT !.ptag = ""]
+           ELSE IF ev.i[1] /\ ev.t = "" THEN WriteTag([m1 EXCEPT !.ptag = ""], "!") ELSE WriteTag(m1, ev.t)
+  ELSE IF (~m.opt.canonical \/ ev.t = "") /\ ev.i[1] THEN [m EXCEPT !.ptag = ""]
   ELSE WriteTag(m, ev.t)
 
 ProcessScalar(m, ev) ==
@@ -255,7 +285,9 @@ TagDirectives(m, tg) ==
     [] tg = "nop" -> Fail(m, "tag prefix must not be empty")
     [] tg = "hu" /\ "D5" \notin Fix -> CrashM([m EXCEPT !.diag = @ \cup {"tag-prefix-non-ascii"}], "TypeError in prepare_tag_prefix: ord() of an int")
     [] OTHER ->
-         LET line == IF tg = "h1" THEN <<37, 84, 65, 71, 32, 33, 104, 49, 33, 32, 116, 58, 104, 49, 58>>            \* %TAG !h1! t:h1:
+         LET line == IF tg = "hs" THEN <<37, 84, 65, 71, 32, 33, 33, 32>> \o SecP                                   \* %TAG !! t:s:
+                     ELSE IF tg = "hb" THEN <<37, 84, 65, 71, 32, 33, 32>> \o BangP                                 \* %TAG ! t:b:
+                     ELSE IF tg = "h1" THEN <<37, 84, 65, 71, 32, 33, 104, 49, 33, 32, 116, 58, 104, 49, 58>>            \* %TAG !h1! t:h1:
                      ELSE <<37, 84, 65, 71, 32, 33, 117, 33, 32, 116, 58, 37, 67, 51, 37, 65, 57, 58>>              \* %TAG !u! t:%C3%A9:
          IN  [m EXCEPT !.tp = {tg}, !.w = S!WBreak(S!WData(m.w, line), m.opt.lb),
                        !.items = Append(@, [t |-> "tagdir", h |-> tg, off |-> Len(m.w.out), end |-> Len(m.w.out) + Len(line)])]
